@@ -191,11 +191,18 @@ class Packet(_with_metaclass(bisturi.packet_builder.MetaPacket, object)):
         if not isinstance(other, self.__class__):
             return False
 
-        for name, f, pack, _ in self.get_fields():
+        for name in self._names_of_fields_with_value():
             if getattr(self, name) != getattr(other, name):
                 return False
 
         return True
+
+    def _names_of_fields_with_value(self):
+        # the moves (at/shift/aligned) and Em hold no value
+        return [
+            name for name, f, _, _ in self.get_fields()
+            if not f.holds_no_value
+        ]
 
     def iterative_unpack(self, raw, offset=0, stack=None):
         raise NotImplementedError()
@@ -207,7 +214,7 @@ class Packet(_with_metaclass(bisturi.packet_builder.MetaPacket, object)):
 
     def __repr__(self):
         msg = [f'{self.__class__.__name__}:']
-        for name, f, _, _ in self.get_fields():
+        for name in self._names_of_fields_with_value():
             msg.append(f'  {name}: {getattr(self, name)}')
 
         return '\n'.join(msg)
